@@ -330,3 +330,17 @@ package corazawaf
 //@ func (*Transaction).RemoveRuleByID props C17,C07
 //@   ensures tx.ruleRemoveByID != nil && has(tx.ruleRemoveByID, id)
 //@   ensures othersKept: forall k int :: k != id ==> has(tx.ruleRemoveByID, k) == old(has(tx.ruleRemoveByID, k))
+
+// ---------------------------------------------------------------- transaction time never writes the shared rule set (C06, C17, C01)
+
+// Evaluating a rule changes only the transaction: the compiled rule, its targets and their exclusion lists are
+// shared by every transaction on the WAF and must come out of doEvaluate exactly as they went in. (Per-transaction
+// target exclusions from ctl:ruleRemoveTarget* are merged into a private copy of the target.)
+//@ func (*Rule).doEvaluate props C06,C17,C01 nosafety
+//@   modifies inferred
+// the per-transaction exclusions are merged into a private copy of the target (never into the rule's own target),
+// and the append cannot write into the exclusion array the copy still shares with the rule
+//@   at "v.Exceptions = append(" requires privateCopy: fresh(v)
+//@   at call "append(v.Exceptions" requires noSharedBackingArray: fresh(arg(0)) || len(arg(0)) == cap(arg(0))
+//@   loop 2
+//@     invariant fresh(v)
